@@ -102,7 +102,14 @@ def one_history(run, case, name, sn, U, Ug, m, j, later, rng, interfere=None):
                 run.ev('sibling_sessions_interleaved')
             finally:
                 session.drop_session(sib)
-        r = session.run_main(['-r', name, '-s', sn] + (['--load'] if ci else []), trigger=trig)
+        pre_typed = None
+        if kind == 'later' and isinstance(cut, list) and cut[0] == 'start':
+            # the quit request is already waiting on standard input when the resumed run starts (q typed ahead, `echo q | pcfg_guesser --load`)
+            pre_typed = session.Stdin()
+            pre_typed.feed('q')
+            fired['x'] = True
+            run.ev('resumed_runs_with_a_quit_typed_ahead')
+        r = session.run_main(['-r', name, '-s', sn] + (['--load'] if ci else []), trigger=trig, stdin=pre_typed)
         run.ev('main_runs')
         if ci:
             run.ev('resumes')
@@ -230,7 +237,7 @@ def check_case(run, case, tier='quick'):
                 ncyc = rng.choice([0, 0, 1, 1, 2, 3])
                 later = []
                 for c in range(ncyc):
-                    later.append(rng.randint(1, max(1, min(12, len(Ug)))) if rng.random() < 0.7 else [rng.choice(['pop', 'create', 'create']), rng.randint(1, 3)])
+                    later.append(rng.randint(1, max(1, min(12, len(Ug)))) if rng.random() < 0.7 else [rng.choice(['pop', 'create', 'create', 'start']), rng.randint(1, 3)])
                 interfere = None
                 if rng.random() < 0.25:
                     m2 = rng.choice(mk)
